@@ -360,6 +360,8 @@ def c09(run):
     run.validate("frame", t, "Trace_frame", label="(V) uniform + mutated frames: every follow-up decoder with random keys", chunk=10000)
     t = run.record("maccmd", "decodeN", n=T(run, 500, 20000))
     run.validate("maccmd", t, "Trace_maccmd", label="(V) MAC payload decoders incl. wrong lengths", chunk=50000)
+    t = run.record("regconc", "mix", n=T(run, 6, 80))
+    run.validate("crypto", t, "Trace_crypto", label="(V) decoders running while proprietary commands are registered and removed: every call returns (hang watchdog)", chunk=T(run, 60, 200), prefix="C09")
     run.require_kinds("total/total", "frame/bytes", "maccmd/dec")
     run.rc = run.finish(assumptions=["C09 asserts totality only (value or error, input untouched); which inputs are accepted is decided by C01/C06/C08",
                                      "'time linear in the input' is enforced only as a 5 s per-call deadline; coverage-guided fuzzing is not used (DESIGN sec. 4)"])
